@@ -11,6 +11,7 @@ import (
 	"fmt"
 	"io"
 	"os"
+	"os/exec"
 	"path/filepath"
 	"regexp"
 	"runtime"
@@ -57,6 +58,7 @@ type Config struct {
 	DelaySeed uint64   `json:"delay_seed"`
 	HoldAll   bool     `json:"hold_all"` // consumer keeps every match and re-reads it after GC
 	Gunzip    bool     `json:"gunzip,omitempty"` // files mode: -z (gzip files are decoded, plain files are read as they are)
+	Cli       bool     `json:"cli,omitempty"`    // files mode, regex / dissect matcher: also run `rare filter` (the binary) on the same files
 }
 
 type MatchObs struct {
@@ -77,6 +79,7 @@ type Result struct {
 	R, M, I   uint64
 	ReadErrs  int        `json:"read_errors"`
 	Matches   []MatchObs `json:"matches"`       // consumption order
+	Cli       []string   `json:"cli_stdout_hex,omitempty"` // `rare filter` stdout without and with --color (one reader, one worker)
 	Delivered []string   `json:"delivered_hex"` // reader mode: bytes the scripted reader handed over
 	ReadErr   []bool     `json:"read_err"`      // per source: stream ended in an injected error
 	LogTotal  int        `json:"matcher_calls"`
@@ -433,6 +436,9 @@ func run(cfg Config, sources []Source, dir string) Result {
 		res.Delivered = append(res.Delivered, hex.EncodeToString(rd.delivered))
 		res.ReadErr = append(res.ReadErr, rd.failed)
 	}
+	if cfg.Cli && cfg.Mode != "reader" {
+		res.Cli = runCli(cfg, sources, dir)
+	}
 	res.Completed = true
 	fac.mu.Lock()
 	if fac.panicNote != "" {
@@ -441,6 +447,81 @@ func run(cfg Config, sources []Source, dir string) Result {
 	}
 	fac.mu.Unlock()
 	return res
+}
+
+// ---------- the `rare` binary ----------
+var rareOnce sync.Once
+var rareBin, rareErr string
+
+// RareBin builds the rare binary from the tree under test once per harness run.
+func RareBin() (string, string) {
+	rareOnce.Do(func() {
+		repo := os.Getenv("VERIF_REPO")
+		if repo == "" {
+			repo = "/repo"
+		}
+		rareBin = filepath.Join(Workdir(), fmt.Sprintf("rare-pipe-%d", os.Getpid()))
+		cmd := exec.Command("go", "build", "-o", rareBin, ".")
+		cmd.Dir = repo
+		cmd.Env = append(os.Environ(), "GOFLAGS=-mod=mod", "GOPROXY=off", "GOSUMDB=off", "GOTOOLCHAIN=local")
+		if out, err := cmd.CombinedOutput(); err != nil {
+			rareErr = err.Error() + ": " + string(out)
+		}
+	})
+	return rareBin, rareErr
+}
+
+// runCli: `rare [--color] filter <matcher> --workers 1 --readers 1 …files` — what the command prints for the same
+// files (standard output only; the summary goes to standard error)
+func runCli(cfg Config, sources []Source, dir string) []string {
+	bin, berr := RareBin()
+	if berr != "" {
+		return []string{hex.EncodeToString([]byte("BUILD FAILED: " + berr))}
+	}
+	var margs []string
+	switch {
+	case len(cfg.Matcher) > 3 && cfg.Matcher[:3] == "re:":
+		margs = []string{"-m", cfg.Matcher[3:]}
+	case len(cfg.Matcher) > 9 && cfg.Matcher[:9] == "dissecti:":
+		margs = []string{"-d", cfg.Matcher[9:], "-I"}
+	case len(cfg.Matcher) > 8 && cfg.Matcher[:8] == "dissect:":
+		margs = []string{"-d", cfg.Matcher[8:]}
+	default:
+		return nil
+	}
+	var out []string
+	for _, colour := range []bool{false, true} {
+		args := []string{}
+		if colour {
+			args = append(args, "--color")
+		}
+		args = append(args, "filter")
+		args = append(args, margs...)
+		args = append(args, "--workers", "1", "--readers", "1", "--batch", fmt.Sprint(cfg.Batch), "--batch-buffer", fmt.Sprint(cfg.Buffer))
+		if cfg.Gunzip {
+			args = append(args, "-z")
+		}
+		for _, s := range sources {
+			args = append(args, filepath.Join(dir, s.Name))
+		}
+		cmd := exec.Command(bin, args...)
+		var stdout bytes.Buffer
+		cmd.Stdout = &stdout
+		done := make(chan error, 1)
+		if err := cmd.Start(); err != nil {
+			out = append(out, hex.EncodeToString([]byte("START FAILED: "+err.Error())))
+			continue
+		}
+		go func() { done <- cmd.Wait() }()
+		select {
+		case <-done:
+		case <-time.After(30 * time.Second):
+			cmd.Process.Kill()
+			stdout.WriteString("\nTIMEOUT")
+		}
+		out = append(out, hex.EncodeToString(stdout.Bytes()))
+	}
+	return out
 }
 
 // SortMatches orders matches by (source index, line number) — the canonical order compared with the model.
